@@ -109,7 +109,7 @@ CHECKS["C11"] = {
          "summarise": SCAN_SUMMARISE, "cover": [], "alloc_limit": 31457280, "max_alloc": 32, "replay_mem_limit_kb": 4000000},
         {"name": "wire", "pkg": "internal/session", "pkgname": "session", "entry": "VerifC11Wire", "files": ["zz_verif_c18.go", "zz_verif_c18b.go", "zz_verif_c11wire.go"],
          "with": ["state_export", "backend_export", "verifdb"], "goroutines": True, "replay_timeout_s": 60,
-         "params": {"quick": grid(state=[0], n=[0, 1]), "thorough": grid(state=[0, 1, 2], n=[1, 2, 3])},
+         "params": {"quick": grid(state=[0, 1, 2], n=[0, 1, 2]), "thorough": grid(state=[0, 1, 2], n=[3])},
          "summarise": SCAN_SUMMARISE, "cover": ["served"]},
         {"name": "wirelines", "pkg": "internal/session", "pkgname": "session", "entry": "VerifC11WireLines", "files": ["zz_verif_c18.go", "zz_verif_c18b.go", "zz_verif_c11wire.go"],
          "with": ["state_export", "backend_export", "verifdb"], "goroutines": True, "concrete_time": True, "replay_timeout_s": 60,
